@@ -79,9 +79,9 @@ func grammarCase0(ctx *Ctx, i int, prec bool) (*wl.Spec, string) {
 		// more than 256 grammar symbols
 		return wl.ManySymbols(r.Sub("syms")), "many-symbols"
 	}
-	if i%per == 55 && (ctx.Prop == "C09" || ctx.Prop == "C03" || ctx.Prop == "C05" || ctx.Thorough()) {
+	if i%per == 55 && (ctx.Prop == "C09" || ctx.Prop == "C05" || ctx.Thorough()) {
 		// more than 512 productions, all alternatives of one nonterminal (rule numbers beyond nine bits)
-		return wl.ManyRulesN(r.Sub("many512"), r.Range(530, 600)), "many-rules-512"
+		return wl.ManyShortRules(r.Sub("many512"), r.Range(530, 600)), "many-rules-512"
 	}
 	if i%per == 7 {
 		// more than 64 table columns
